@@ -241,6 +241,10 @@ pub enum Content {
     Checker,
     /// random colour, alpha channel mostly 0 / max
     AlphaEdges,
+    /// random colour, fully opaque (alpha = max everywhere)
+    Opaque,
+    /// random colour, opaque except for a handful of translucent pixels
+    SparseAlpha,
 }
 
 #[derive(Clone, Debug, PartialEq, Serialize, Deserialize)]
